@@ -1,4 +1,4 @@
-"""F-C19 / C05 (open): a task whose action returns values the DB codec cannot encode (a set, bytes) is reported with
+"""F-C19 / C05 (fixed by /repo 8fa62ea): a task whose action returns values the DB codec cannot encode (a set, bytes) is reported with
 add_success; the TypeError only surfaces in dep_manager.close() inside Runner.finish(): traceback, exit 3, teardowns
 and reporter.complete_run never run (with -r json: no document, streams left redirected, nothing on stderr), and with
 the json backend nothing of the whole run is saved.  Expected: the task is reported as failed (it can not be saved),
